@@ -1203,9 +1203,6 @@ func runMutable(h *mHistory, res *lib.Result, trace func(string)) {
 						map[string]string{"infer": "inferred", "detailed": "detailed"}[c.clause], tyText(t), lat.ValText(frozen), crash)
 				}
 				tags := []string{who.tag}
-				if containsNaN(types.VerifDecodeValue(frozen)) {
-					tags = []string{"nonfinite-float"}
-				}
 				res.Violate(lib.Violation{Clause: c.clause, What: what, Input: in, Tags: tags})
 				if trace != nil {
 					trace("FAILS: " + what)
